@@ -2,13 +2,14 @@
 C05 — Compilation and error display terminate cleanly on every input.
 
 The parser theorems are about `Model/Parser.lean` with `Variant.fixed` (the tree with patches fix-c05-catch-block-loop,
-fix-c03-if-at-eof, fix-c05-error-builder-nil-token applied), for EVERY lexer `ops` that meets `LexOK` — stated once for all
+fix-c03-if-at-eof, fix-c05-error-builder-nil-token applied, and the left-over-token error positioned at the first left-over token), for EVERY lexer `ops` that meets `LexOK` — stated once for all
 token streams; `tokenOps_ok` shows the assumption is satisfiable, Model/Lexer's `nextToken` is the intended instance (its own
 bounds are the lexer worker's theorems).  The display theorems are about `Model/ErrorPrinter.lean` (patch
 fix-c05-error-printer-total).  Proofs: Proofs/ParserHoare, ParserGood*, ParserTheorems, ErrorPrinter.
 -/
 import ZnVerif.Proofs.ParserTheorems
 import ZnVerif.Proofs.ErrorPrinter
+import ZnVerif.Spec.StmtSyntax
 
 namespace ZnVerif.Properties.C05
 open ZnVerif.Model ZnVerif.Model.Parser ZnVerif.Generated.Tokens
@@ -85,6 +86,40 @@ theorem panic_before_fix :
 theorem same_input_after_fix :
     (match parseTokens Variant.fixed 40 [{ type := cTypeFuncQuoteR, startIdx := 0, endIdx := 1 }] with
      | .synErr e => e.code == 20 && e.cursor == 0 | _ => false) = true := by decide
+
+/-- **leftover_error_at_first_leftover_token** (C18's "the error points at the offending line"): when `ParseProgram` returns and
+tokens remain (a line indented deeper than the complete statement before it belongs to no open block, so every block ends there),
+`Parser.Parse` answers syntax error 20 positioned at the FIRST left-over token (`s.p2`, the parser's peek token) — for every
+lexer, every input.  (Pinned tree: `getInvalidSyntaxCurr`, i.e. the last token that was accepted — on the line before.) -/
+theorem leftover_error_at_first_leftover_token (n : Nat) (l : σ) (s0 s : PState σ) (pg : Program)
+    (h0 : initState ops n l = .ok () s0) (hp : parse Variant.fixed ops n .program s0 = .ok pg s) (hleft : s.p2.type ≠ cTypeEOF) :
+    parseAST Variant.fixed ops n l = .synErr ⟨20, s.p2.startIdx⟩ := by
+  unfold parseAST
+  rw [h0]
+  simp only [hp, if_pos hleft]
+  show (match (errPeek Variant.fixed 20 : PM σ Unit) s with
+        | .err e => Outcome.synErr e | .panic => .otherErr | _ => .otherErr) = _
+  unfold errPeek
+  cases s.p1 <;> rfl
+
+/-- two lines, the second indented by one step: `甲` on line 0 (characters 0–1), `乙` on line 1 (characters 6–7) -/
+def overY : ZnVerif.Spec.StmtSyntax.Layout :=
+  { lines := #[{ indents := 0, startIdx := 0 }, { indents := 1, startIdx := 2 }], eofIdx := 7, ne := by decide }
+
+/-- the witness `甲⏎    乙`: a complete statement followed by an over-indented line.  Repaired tree: error 20 at `乙` (cursor 6, on the
+over-indented line) … -/
+theorem overindented_line_after_fix :
+    (match ZnVerif.Spec.StmtSyntax.parseLaidOut Variant.fixed overY 60
+        [{ type := cTypeIdentifier, literal := [0x7532], startIdx := 0, endIdx := 1 },
+         { type := cTypeIdentifier, literal := [0x4E59], startIdx := 6, endIdx := 7 }] with
+     | .synErr e => e.code == 20 && e.cursor == 6 | _ => false) = true := by decide +kernel
+
+/-- … pinned tree: error 20 at `甲` (cursor 0, the line before) -/
+theorem overindented_line_before_fix :
+    (match ZnVerif.Spec.StmtSyntax.parseLaidOut Variant.legacy overY 60
+        [{ type := cTypeIdentifier, literal := [0x7532], startIdx := 0, endIdx := 1 },
+         { type := cTypeIdentifier, literal := [0x4E59], startIdx := 6, endIdx := 7 }] with
+     | .synErr e => e.code == 20 && e.cursor == 0 | _ => false) = true := by decide +kernel
 
 -- non-vacuity: the assumptions on the lexer are satisfiable (token-level lexer), and its initial states satisfy `I`
 example : LexOK tokenOps 100 List.length (fun l => ∀ t ∈ l, t.startIdx ≤ 100) := tokenOps_ok 100
